@@ -1,0 +1,14 @@
+//go:build verif
+// +build verif
+
+package messages
+
+// VerifPoint, when set, is called at the named points of the consume loop (build tag verif). The
+// crash-enumeration harness kills the process there.
+var VerifPoint func(name string, offset uint64)
+
+func verifPoint(name string, offset uint64) {
+	if VerifPoint != nil {
+		VerifPoint(name, offset)
+	}
+}
